@@ -105,9 +105,12 @@ XPathEnvSupportDefault::~XPathEnvSupportDefault()
     using std::for_each;
 
     // Clean up the extension namespaces vector
-    for_each(m_externalFunctions.begin(),
-             m_externalFunctions.end(),
-             NamespaceFunctionTableDeleteFunctor(m_externalFunctions.getMemoryManager()));
+    if (m_externalFunctions.empty() == false)
+    {
+        for_each(m_externalFunctions.begin(),
+                 m_externalFunctions.end(),
+                 NamespaceFunctionTableDeleteFunctor(m_externalFunctions.getMemoryManager()));
+    }
 
     NamespaceFunctionTablesType temp(XalanMemMgrs::getDummyMemMgr());
     temp.swap(m_externalFunctions);
